@@ -1,2 +1,87 @@
-(* C05_Spec.v - placeholder, being written *)
+(* C05_Spec.v — what the property text promises, written without reference to the runner's
+   loops, groups, semaphore or slots: WHICH permutations are to be issued (a flat selection
+   over the library), and WHAT must be true of an event history (newest event first) of
+   server starts / exits, sends and recorded setup failures. *)
+From Coq Require Export Permutation.
 From V Require Export C05_Model.
+Open Scope N_scope.
+
+(* ---------- which permutations are issued ---------- *)
+(* What the grpc-go reference peers can run (docs + test_case_library.go comments): never the
+   Connect protocol; the gRPC client speaks gRPC only, the gRPC server also gRPC-Web; gRPC needs
+   HTTP/2, gRPC-Web runs over HTTP/1.1 and HTTP/2; proto codec; identity or gzip; no TLS; no raw
+   request through the gRPC client, no raw response out of the gRPC server. *)
+Definition grpc_supported (c s : bool) (tc : tcase) : bool :=
+  negb (tc.(tc_proto) =? 1)
+  && (negb c || (tc.(tc_proto) =? 2))
+  && (if tc.(tc_proto) =? 3 then (tc.(tc_ver) =? 1) || (tc.(tc_ver) =? 2) else tc.(tc_ver) =? 2)
+  && (tc.(tc_codec) =? 1)
+  && ((tc.(tc_comp) =? 1) || (tc.(tc_comp) =? 2))
+  && negb tc.(tc_tls)
+  && negb (c && is_some tc.(tc_raw))
+  && negb (s && tc.(tc_rawresp)).
+
+(* the permutation as it is issued to the pair (client c, server s): itself between two ordinary
+   peers, its marked variant when a gRPC peer takes part and supports it, nothing otherwise *)
+Definition variant (c s : bool) (tc : tcase) : option tcase :=
+  if negb c && negb s then Some tc
+  else if grpc_supported c s tc then Some (rename c s tc) else None.
+
+Definition select_one (sel : bytes -> bool) (c s : peer) (tc : tcase) : list tcase :=
+  match variant c.(p_grpc) s.(p_grpc) tc with
+  | Some tc' => if sel tc'.(tc_name) then [tc'] else []
+  | None => []
+  end.
+
+(* everything that has to be issued in a run: no grouping, no order *)
+Definition selected (lib : list tcase) (sel : bytes -> bool) (clients servers : list peer) : list tcase :=
+  flat_map (fun c => flat_map (fun s => flat_map (select_one sel c s) lib) servers) clients.
+
+(* ---------- reading an event history (newest first) ---------- *)
+(* the permutations handed to the client for batch k, oldest first *)
+Fixpoint sent_cases (tr : list event) (k : nat) : list tcase :=
+  match tr with
+  | [] => []
+  | ESend j tc _ :: old => if Nat.eqb j k then sent_cases old k ++ [tc] else sent_cases old k
+  | _ :: old => sent_cases old k
+  end.
+
+(* batch k was recorded as a setup failure *)
+Fixpoint failed_in (tr : list event) (k : nat) : bool :=
+  match tr with
+  | [] => false
+  | EFail j :: old => Nat.eqb j k || failed_in old k
+  | _ :: old => failed_in old k
+  end.
+
+(* every send, at the moment it happened (`old` = what had happened before): the server spawned
+   for that batch was serving — it had answered with address a and had not exited —, the
+   permutation belongs to the batch, and the request is the permutation completed with a *)
+Fixpoint sends_ok (p : list batch) (tr : list event) : Prop :=
+  match tr with
+  | [] => True
+  | e :: old =>
+    match e with
+    | ESend k tc r =>
+      exists b a, nth_error p k = Some b /\ serving old k = Some a /\ In tc b.(b_cases)
+                  /\ r = complete a b.(b_inst) b.(b_sref) tc
+    | _ => True
+    end /\ sends_ok p old
+  end.
+
+(* the bound on server processes held at EVERY moment of the history *)
+Fixpoint always_bounded (max : nat) (tr : list event) : Prop :=
+  match tr with
+  | [] => True
+  | _ :: old => (length (alive_list tr) <= max)%nat /\ always_bounded max old
+  end.
+
+(* how many of the listed actions were enabled when their turn came *)
+Fixpoint effective (max : nat) (s : state) (acts : list action) : nat :=
+  match acts with
+  | [] => 0
+  | a :: r => match step_opt max s a with
+              | Some s' => S (effective max s' r)
+              | None => effective max s r
+              end
+  end.
